@@ -34,8 +34,18 @@ Proof.
     + destruct (N.eqb c cDOT); [reflexivity|exact N].
 Qed.
 
+Lemma skip_slashes_size_aux : forall n r i, length r <= n -> size (skip_slashes r i) <= length r.
+Proof.
+  induction n as [|n IH]; intros r i L.
+  - destruct r; [cbn; lia | cbn in L; lia].
+  - destruct r as [|c r]; [cbn; lia|]. cbn [skip_slashes]. cbn [length] in *.
+    destruct (N.eqb c cSL). { specialize (IH r (i + 1)%Z). lia. }
+    destruct (N.eqb c cBS); [|cbn; lia].
+    destruct r as [|c2 r2]; [cbn; lia|]. destruct (N.eqb c2 cSL); [|cbn; lia].
+    cbn [length] in *. specialize (IH r2 (i + 2)%Z). lia.
+Qed.
 Lemma skip_slashes_size : forall r i, size (skip_slashes r i) <= length r.
-Proof. induction r as [|c r IH]; intros i; cbn; [lia|]. destruct (N.eqb c cSL); [specialize (IH (i + 1)%Z); lia|cbn; lia]. Qed.
+Proof. intros r i. apply (skip_slashes_size_aux (length r)). lia. Qed.
 
 Lemma skip_stars_size : forall r i, size (skip_stars r i) <= length r.
 Proof. induction r as [|c r IH]; intros i; cbn; [lia|]. destruct (N.eqb c cSTAR); [specialize (IH (i + 1)%Z); lia|cbn; lia]. Qed.
@@ -164,8 +174,8 @@ Proof.
   destruct v2 as [value2 it2]. cbn [snd] in G2.
   destruct (str_eqb value2 gstar); [|cbn; lia].
   destruct cur as [|last cur']; [cbn; lia|].
-  destruct (negb (str_eqb (itext last) _)); [|cbn; lia].
-  cbn [fst snd]. pose proof (consume_path_sep_size cf it2). lia.
+  pose proof (consume_path_sep_size cf it2).
+  destruct (negb (str_eqb (itext last) _)); cbn [fst snd]; lia.
 Qed.
 
 Definition strict {A} (proj : A -> iter) (n : nat) (r : res A) : Prop :=
